@@ -107,8 +107,14 @@ def _run(eng, c, fn, scenario):
     eng.oblige(st, z3.BoolVal(False), "cover", "requires-satisfiable", fn, text="requires are satisfiable (expected: refuted = reachable)")
     eng.obligations[-1].expect = "sat"
 
+    covered = {"exit": False}
+
     def exit_normal(s, v):
         eng.paths += 1
+        if not covered["exit"]:
+            covered["exit"] = True
+            cv = eng.oblige(s, z3.BoolVal(False), "cover", "normal-exit-reachable", fn, text="a normal exit path is satisfiable (vacuity guard)")
+            cv.expect = "sat"
         post = s
         post.env = dict(post.env)
         if c.returns is not None and c.returns != NONE:
@@ -237,7 +243,10 @@ def verify_lemma(name):
         st.assume(se.boolean(h))
     for ax in R.AXIOMS.get(name, []):
         st.assume(ax())
-    eng.oblige(st, se.boolean(lm.goal), "lemma", name, None, text=lm.goal)
+    ob = eng.oblige(st, se.boolean(lm.goal), "lemma" if not lm.expect_refuted else "non-lemma", name, None,
+                    text=lm.goal + ("   [expected NOT to follow: a counterexample must exist]" if lm.expect_refuted else ""))
+    if lm.expect_refuted:
+        ob.expect = "sat"
     return eng.obligations
 
 
